@@ -191,6 +191,23 @@ def _c14_specs(tier):
     return sp
 
 
+def _lat_specs(tier, tag):
+    sp = []
+    for conf in ('default', 'tight', 'open'):
+        sp.append(('%s-%s-hand' % (tag, conf), ['--conf', conf, '--gset', 'hand', '--syms', 'SIL,AH,G,OW,T,_', '--segs', '3', '--routes', 'api']))
+        sp.append(('%s-%s-enum22' % (tag, conf), ['--conf', conf, '--gset', 'enum:2:2', '--words', 'a,go', '--syms', 'SIL,AH,G,OW,_', '--segs', '3',
+                                                 '--routes', 'api,jsgf']))
+    if tier == 'thorough':
+        for conf in ('default', 'tight', 'open'):
+            sp.append(('%s-%s-enum23' % (tag, conf), ['--conf', conf, '--gset', 'enum:2:3', '--words', 'a,go,no', '--syms', SYM3, '--segs', '2',
+                                                     '--routes', 'api,jsgf']))
+        sp.append(('%s-open-nofiller' % tag, ['--conf', 'open', '--filler', '0', '--gset', 'enum:2:3', '--words', 'a,go,no', '--syms', SYM3, '--segs', '2',
+                                              '--routes', 'api']))
+        sp.append(('%s-open-enum33' % tag, ['--conf', 'open', '--gset', 'enum:3:3', '--words', 'a,go,no', '--syms', SYM3, '--segs', '2', '--lens', '3',
+                                            '--routes', 'api']))
+    return sp
+
+
 DEC_ASSUME = ['audio is represented by per-frame symbols over a small phone alphabet: senone scores are base(symbol, phone of senone) + a fixed '
               'per-senone jitter, supplied through the interposed acmod_score; the front end, feature buffering and every search decision are real',
               'dictionary of 14 words over the en-us phone set (one-, two-, three-phone words, shared prefixes, alternates); model en-us only',
@@ -238,6 +255,33 @@ CHECKS = {
              'table and the transition matrix (emissions + self-loops + exit transition); second call returns the same object / same failure',
         assumptions=DEC_ASSUME + ['state scores are checked against the senone scores the aligner was given (the second pass uses its own '
                                   'context conventions, so they are not compared with first-pass word scores)'] + TRUST,
+    ),
+    'C11': dict(
+        title='the word lattice is a well-formed, time-consistent graph of grammar paths',
+        level='exploration',
+        runs={'quick': _dec_runs('C11', _lat_specs('quick', 'c11')), 'thorough': _dec_runs('C11', _lat_specs('thorough', 'c11'))},
+        budget_s={'quick': 400, 'thorough': 3000},
+        coverage=ex_cov,
+        rule='the lattice of every explored utterance (final, and mid-utterance after frames 2,6,10 with the utterance continuing), beams '
+             '{default,tight,open}: start/end nodes present and unique, every node on a start-to-end path, acyclic (topological sort), every '
+             'link joins ef=t to sf=t+1 within the utterance (artificial <s>/</s> nodes exempt), the label sequence of EVERY path is a path '
+             'of the input grammar from its start state (exact DP over (node, set of grammar states)), the first-best segmentation is a '
+             'chain of linked nodes with matching boundaries, a second decoder_lattice() call returns the same object',
+        assumptions=DEC_ASSUME + ['no lattice (NULL) is accepted where the decoder builds none; counted in the evidence'] + TRUST,
+    ),
+    'C12': dict(
+        title='N-best lists and lattice scores are ordered and probabilistically sane',
+        level='exploration',
+        runs={'quick': _dec_runs('C11,C12', _lat_specs('quick', 'c12')), 'thorough': _dec_runs('C11,C12', _lat_specs('thorough', 'c12'))},
+        budget_s={'quick': 400, 'thorough': 3000},
+        coverage=ex_cov,
+        rule='on the same lattices: all start-to-end paths are enumerated (up to 20000) with their scores; lattice_bestpath score == the '
+             'maximum and its hypothesis is a path with that score; every N-best hypothesis (score, words) is a start-to-end path with that '
+             'score, scores non-increasing, the first is the maximum, and when the list ends by itself every path has been listed; '
+             'lattice_posterior: long-double forward/backward over the same link scores gives the normaliser, forward == backward total, '
+             'every link posterior <= 0 and equal to the reference within (2 + #links) log units, best-path posterior <= 0',
+        assumptions=DEC_ASSUME + ['tolerance for table-driven log-add: 2 + number of links (each add errs by at most half a unit, C19)',
+                                  'N-best completeness is only demanded for lattices with at most 400 paths (below the iterator\'s own agenda cap of 500)'] + TRUST,
     ),
     'C14': dict(
         title='the JSON result is well-formed and says what the iterators say',
@@ -362,6 +406,16 @@ CHECKS = {
 PENDING_REASON = {}
 
 MANIFEST_TEXT = {
+    'C11': dict(
+        text='Every lattice the decoder produces in the bounded exhaustive exploration, including mid-utterance ones, is traversed '
+             'completely: graph shape, time consistency, and an exact dynamic program proving that every path spells a path of the input grammar.',
+        design_ref='DESIGN.md section 2, H7 (C11)', technique='bounded exhaustive enumeration with complete graph traversal of every lattice',
+        note='as C01'),
+    'C12': dict(
+        text='On every lattice of the exploration all start-to-end paths are enumerated and compared with best path and the complete '
+             'N-best list; posteriors are recomputed by a long-double forward-backward pass over the same link scores.',
+        design_ref='DESIGN.md section 2, H7 (C12)', technique='bounded exhaustive enumeration with full path enumeration and reference forward-backward',
+        note='as C01'),
     'C04': dict(
         text='Every alignment obtained in the bounded exhaustive decoder exploration (final and mid-utterance) is checked structurally '
              'against segmentation and dictionary, and every state score is recomputed from first principles out of the injected score table.',
